@@ -184,6 +184,21 @@ def tar_cases(tier):
             cases.append(("tar", "%s-wrapped, byte %d flipped" % (cname, off), bytes(d)))
         for ln in range(0, len(cd), 11 if quick else 3):
             cases.append(("tar", "%s-wrapped, truncated to %d" % (cname, ln), cd[:ln]))
+        # something follows the end of the first compressed stream: garbage of every short length, a second (valid, empty, damaged, truncated) member
+        for g in (b"\0", b"\xff", b"G" * 8, bytes(512), b"garbage " * 100, cd[:1], cd[:3], cd[:10]):
+            cases.append(("tar", "%s-wrapped, followed by %d bytes %r" % (cname, len(g), g[:10]), cd + g))
+        half = len(base) // 1024 * 512
+        two = comp(base[:half]) + comp(base[half:])
+        cases.append(("tar", "%s-wrapped, two members" % cname, two))
+        cases.append(("tar", "%s-wrapped, second member empty" % cname, cd + comp(b"")))
+        cases.append(("tar", "%s-wrapped, empty member first" % cname, comp(b"") + cd))
+        c2 = comp(base[half:])
+        for ln in range(1, len(c2), 13 if quick else 3):
+            cases.append(("tar", "%s-wrapped, second member truncated to %d" % (cname, ln), comp(base[:half]) + c2[:ln]))
+        for off in range(0, len(c2), 17 if quick else 4):
+            d = bytearray(c2)
+            d[off] ^= 0x55
+            cases.append(("tar", "%s-wrapped, second member byte %d flipped" % (cname, off), comp(base[:half]) + bytes(d)))
     return cases
 
 
